@@ -258,3 +258,9 @@ def _subscript_opaque(ex, st, base, idx, k, where):
         ex.decls.fun("addr_text", [_INT], _STR)
         return k(st, VStr(_app("addr_text", _STR, base.t)))
     raise Unsupported(f"subscript of an opaque value at {where}")
+
+# C09 routes answers by the host identity the capabilities exchange recorded on the connection: the identity clauses of both
+# handlers are part of that property's check too (round 5: scope)
+for _n in ("Node.receive_cea", "Node.receive_cer"):
+    if "C09" not in R.contracts[_n].props:
+        R.contracts[_n].props.append("C09")
